@@ -339,6 +339,18 @@ func genC18Wide(g *Gen) {
 		emitReader(data, off, lens, rs, fmt.Sprintf("reader-rand-f%d", fmode))
 	}
 
+	// a few large files (crossing 64 KiB), read in chunks around 4 KiB / 64 KiB and to the end
+	for k, nk := 0, g.N(3, 40); k < nk; k++ {
+		fl := 65536 + g.R.Range(1, 5000)
+		off := int64(g.R.Pick(0, 1, 4095, 4096))
+		chunk := int64(g.R.Pick(4095, 4096, 4097, 65535, 65536, 65537))
+		var lens []int64
+		for got := int64(0); got < int64(fl)-off+chunk; got += chunk {
+			lens = append(lens, chunk)
+		}
+		emitReader(c18Data(fl, byte(k)), off, lens, nil, "reader-large")
+	}
+
 	// ---- iohelper.File ----
 	fileEvs := []string{"G", "X", "I", "T", "E", "F", "A", "R", "S0", "S1", "S2", "B"}
 	emitFile := func(h *c18Hist, at bool, init []byte, roff int64, lens []int64, rs [][2]int64, fev map[string]bool, flen int64, stored int64, bucket string) {
